@@ -186,7 +186,10 @@ func refLabelString(m map[string]string) string {
 	sort.Strings(ks)
 	var b strings.Builder
 	for _, k := range ks {
-		fmt.Fprintf(&b, "%q=%q,", k, m[k])
+		b.WriteString(strconv.Quote(k))
+		b.WriteByte('=')
+		b.WriteString(strconv.Quote(m[k]))
+		b.WriteByte(',')
 	}
 	return b.String()
 }
@@ -207,7 +210,10 @@ func refCumulative(bounds []float64, counts []uint64) string {
 	cum := uint64(0)
 	for i, ub := range bounds {
 		cum += counts[i]
-		fmt.Fprintf(&b, "%s:%d ", fstr(ub), cum)
+		b.WriteString(fstr(ub))
+		b.WriteByte(':')
+		b.WriteString(strconv.FormatUint(cum, 10))
+		b.WriteByte(' ')
 	}
 	return b.String()
 }
